@@ -401,9 +401,13 @@ func mkType5(f Flag, op JumpOp, rA Reg, k encoderToD) Opcode {
 }
 
 // ==================================================================
-// Type6:  0011Fab0 AAAAAAAA BBBBBBBB MMMMMMMM
+// Type6:  0011FabR AAAAAAAA BBBBBBBB MMMMMMMM
 //
-// Load from etc
+// Load from etc / fill table with etc
+// - F is Off to load item M of etc rB into rA
+// - F is On to fill table rA with the items of etc rB starting from index M
+// - if R is set then the index is not M but the integer contained in the value
+//   register whose index is M (this is only for filling tables).
 
 // Index8 is an 8 bit index (0 - 255).
 type Index8 uint8
@@ -425,6 +429,14 @@ func Index8FromInt(n int) Index8 {
 // GetM decodes the Index8 from the opcode.
 func (c Opcode) GetM() Index8 {
 	return Index8(c)
+}
+
+const type6IdxRegFlag Opcode = 1 << 24
+
+// HasIndexReg returns true if the Index8 in this opcode is the index of a value
+// register containing the actual index, assuming that the opcode is Type6.
+func (c Opcode) HasIndexReg() bool {
+	return c&type6IdxRegFlag != 0
 }
 
 func mkType6(f Flag, rA, rB Reg, i Index8) Opcode {
@@ -683,6 +695,9 @@ func (c Opcode) Disassemble(d OpcodeDisassembler, i int) string {
 		rB := c.GetB()
 		f := c.GetF()
 		m := c.GetM()
+		if f && c.HasIndexReg() {
+			return fmt.Sprintf("fill %s, %s, %s", rA, ValueReg(uint8(m)), rB)
+		}
 		if f {
 			return fmt.Sprintf("fill %s, %d, %s", rA, m, rB)
 		}
